@@ -109,37 +109,102 @@ def _solve_job(args):
         return o
 
 
-def _inputs_hash():
-    """hash of everything a unit result depends on: the repository sources, the verifier, the contracts and specs"""
-    if 'inputs_hash' in _G:
-        return _G['inputs_hash']
+def _static_hash():
+    """hash of what every unit result depends on apart from the bodies of the functions it executes: the verifier, the
+    contracts and specs, and the repository sources with all function bodies blanked (signatures, class constants, enums,
+    module level code stay)"""
+    if 'static_hash' in _G:
+        return _G['static_hash']
+    import ast
     import hashlib
     h = hashlib.sha256()
-    roots = [os.path.join(REPO, 'j1939'), os.path.join(VERIF, 'pyvc'), os.path.join(VERIF, 'contracts'), os.path.join(VERIF, 'specs')]
-    for root in roots:
+    for root in (os.path.join(VERIF, 'pyvc'), os.path.join(VERIF, 'contracts'), os.path.join(VERIF, 'specs')):
         for fn in sorted(os.listdir(root)):
             if fn.endswith('.py'):
                 h.update(fn.encode())
                 h.update(open(os.path.join(root, fn), 'rb').read())
+    root = os.path.join(REPO, 'j1939')
+    for fn in sorted(os.listdir(root)):
+        if not fn.endswith('.py'):
+            continue
+        src = open(os.path.join(root, fn)).read()
+        lines = src.split('\n')
+        try:
+            tree = ast.parse(src)
+            for node in ast.walk(tree):
+                if isinstance(node, (ast.FunctionDef, ast.AsyncFunctionDef)) and node.body:
+                    for ln in range(node.body[0].lineno, node.end_lineno + 1):
+                        lines[ln - 1] = ''
+        except SyntaxError:
+            pass
+        h.update(fn.encode())
+        h.update('\n'.join(lines).encode())
     try:
         import z3
         h.update(z3.get_version_string().encode())
     except Exception:
         pass
-    _G['inputs_hash'] = h.hexdigest()
-    return _G['inputs_hash']
+    _G['static_hash'] = h.hexdigest()
+    return _G['static_hash']
 
 
-def _cache_path(unit_name, tier):
+def _func_shas():
+    if 'func_shas' not in _G:
+        if 'loaded' not in _G:
+            _G['loaded'] = load_all()
+        repo = _G['loaded'][0]
+        _G['func_shas'] = {k: fi.sha256 for k, fi in repo.funcs.items()}
+    return _G['func_shas']
+
+
+def _cache_base(unit_name, tier):
     import hashlib
-    k = hashlib.sha256(('%s|%s|%s' % (_inputs_hash(), unit_name, tier)).encode()).hexdigest()[:32]
-    return os.path.join(VERIF, '.cache', k + '.json')
+    k = hashlib.sha256(('%s|%s|%s' % (_static_hash(), unit_name, tier)).encode()).hexdigest()[:32]
+    return os.path.join(VERIF, '.cache', k)
+
+
+def _deps_digest(dep_keys):
+    import hashlib
+    shas = _func_shas()
+    if any(k not in shas for k in dep_keys):
+        return None
+    return hashlib.sha256('|'.join('%s=%s' % (k, shas[k]) for k in sorted(dep_keys)).encode()).hexdigest()[:24]
+
+
+def _cache_lookup(unit_name, tier):
+    base = _cache_base(unit_name, tier)
+    try:
+        deps = json.load(open(base + '.idx'))
+        dg = _deps_digest(deps)
+        if dg is None:
+            return None
+        r = json.load(open('%s-%s.json' % (base, dg)))
+        r['cached'] = True
+        return r
+    except Exception:
+        return None
+
+
+def _cache_store(r, tier):
+    base = _cache_base(r['unit'], tier)
+    deps = sorted(set(f['function'] for f in r.get('fingerprints', [])))
+    dg = _deps_digest(deps)
+    if dg is None or not deps:
+        return
+    os.makedirs(os.path.join(VERIF, '.cache'), exist_ok=True)
+    for path, obj in ((base + '.idx', deps), ('%s-%s.json' % (base, dg), r)):
+        tmp = path + '.tmp%d' % os.getpid()
+        with open(tmp, 'w') as f:
+            json.dump(obj, f, default=str)
+        os.replace(tmp, path)
 
 
 def run_units(unit_names, tier, jobs=None):
-    """Results of a unit are cached on disk under a key that covers every input (all files of /repo/j1939, pyvc, contracts,
-    specs, the tier): a unit that serves several properties is executed once per tree, not once per property.  The cache is
-    an optimisation only (PYVC_NO_CACHE=1 disables it; a missing cache is rebuilt); undecided results are never cached."""
+    """Results of a unit are cached on disk under a key that covers every input: the verifier, contracts and specs, the
+    repository sources outside function bodies, the tier - and the sha256 of every repository function the unit executed
+    (the function under contract and every inlined callee).  A unit that serves several properties is executed once per
+    tree; a change to one function re-executes only the units that run it.  The cache is an optimisation only
+    (PYVC_NO_CACHE=1 disables it; a missing cache is rebuilt); undecided results and checker errors are never cached."""
     jobs = jobs or min(16, os.cpu_count() or 4)
     cfg = TIERS[tier]
     ctx = mp.get_context('fork')
@@ -148,16 +213,11 @@ def run_units(unit_names, tier, jobs=None):
     if use_cache:
         rest = []
         for n in unit_names:
-            cp = _cache_path(n, tier)
-            if os.path.exists(cp):
-                try:
-                    r = json.load(open(cp))
-                    r['cached'] = True
-                    cached.append(r)
-                    continue
-                except Exception:
-                    pass
-            rest.append(n)
+            r = _cache_lookup(n, tier)
+            if r is not None:
+                cached.append(r)
+            else:
+                rest.append(n)
         unit_names = rest
     if not unit_names:
         return cached
@@ -219,10 +279,7 @@ def run_units(unit_names, tier, jobs=None):
             if r.get('error') or any(o.get('status') not in ('proved', 'refuted') and o['kind'] != 'cover' for o in r['obligations']):
                 continue
             try:
-                tmp = _cache_path(r['unit'], tier) + '.tmp%d' % os.getpid()
-                with open(tmp, 'w') as f:
-                    json.dump(r, f, default=str)
-                os.replace(tmp, _cache_path(r['unit'], tier))
+                _cache_store(r, tier)
             except Exception:
                 pass
     return cached + results
